@@ -62,11 +62,15 @@ def gen_case(rng, index, tier):
         nm = rng.choice(NAMES)
         if any(s['dir'] == d and s['name'] == nm for s in slots):
             nm = nm + str(i)
-        kind = rng.choice(['file', 'file', 'tree', 'empty', 'link_dangling'])
+        kind = rng.choice(['file', 'file', 'tree', 'empty', 'link_dangling',
+                           'link_dir'])
         if v2_unusable and d.startswith('v2/') and rng.random() < 0.3:
             kind = 'tree_fifo'      # cannot be copied across volumes
         slots.append({'dir': d, 'name': nm, 'kind': kind})
-        L.add(gen.entry_nodes(rng, d + '/' + nm, kind, 'c%ds%dg0' % (index, i)))
+        # (a link to a live directory: purged like any other entry, by
+        # unlinking the link)
+        L.add(gen.entry_nodes(rng, d + '/' + nm, kind, 'c%ds%dg0' % (index, i),
+                              link_target='@/home' if kind == 'link_dir' else None))
     # entries already in the trash when the history starts: a volume may hold
     # BOTH $topdir/.Trash/$uid and $topdir/.Trash-$uid
     pre = []
